@@ -57,6 +57,41 @@ CHECKS = {
         note="Trusted: Coq kernel; translator (V0..V3, Table 2, P1 table, f[], multipliers); Spec/Tables_RFC.v snapshot trusted to be the RFC's tables; sampled correspondence over the 8e9 (K',X) pairs. No axioms.",
         technique="Rocq proof (sweeps lifted + algebra over all X) + exhaustive/boundary correspondence",
         ref="DESIGN.md section 5, C15"),
+    "C08": dict(
+        text="SourceBlockDecoder / Decoder modelled as the state machine of the code (ESI set, optional source symbols, repair list, counter, per-block memo; cases 1/2/3a/3b with fall-back). Theorems for every consistent history: C08_inv (counter = number of present source symbols, ESI set = ESIs present, repair list duplicate-free), C08_dup_ignored, C08_set_determined (state depends only on the packet set, up to order of the repair list), C08_answer_set_determined_none (Some/None depends only on the set: matrices of permuted ISI lists have permuted rows, injectivity is permutation invariant), C08_batching, C08_stable, C08_incremental_eq_oneshot, C08_block_interleaving. Tie: histories (permutations with repetitions, batch boundaries, interleaved blocks, post-completion, clones, both APIs) on the real decoder vs the model step by step, both profiles, thresholds dense/250/sparse; different histories of one packet set must end in the same answer on the real code.",
+        note="Trusted: Coq kernel; the model's solver is the reference elimination (equality of bytes across orders follows from uniqueness for the encoder's own packets: C01); derive(Clone) deep copy; sampled histories (K <= 40). For corrupted payloads the answer may legitimately depend on order (C08_ex_corrupt_order_dependent): outside the property (packets the encoder produced). No axioms.",
+        technique="Rocq proof (state-machine invariants + permutation invariance of injectivity) + history correspondence",
+        ref="DESIGN.md section 5, C08"),
+    "C02": dict(
+        text="C02_decodes_iff: for every reachable decoder state with at least K ESIs and not all source symbols, the model returns Some exactly when the constraint matrix of the received set is injective over GF(256) (3b is the reference elimination, proved Some iff injective; 3a's rows are a sub-list of the full matrix's rows so its success implies the full system's, and its failure falls through: C02_fast_path_never_loses); C02_case1_not_injective (fewer than K symbols can never determine the block), C02_all_source_decodes, C02_monotone; panic-freedom of the rebuild for all K <= 56403. With C04_matrix_is_rfc the matrix is the RFC's. Tie: real SourceBlockDecoder fed one symbol at a time, Some/None at EVERY prefix vs the model (= rank oracle), oracle-guided generation of rank-deficient sets, overhead stream exercising the binary-only path at its own rank boundary, both profiles and back-ends.",
+        note="Trusted: Coq kernel; that the REAL five-phase solver answers like the reference elimination is tied by correspondence (every prefix compared) and by the certificates of C06, not by a proof of pi_solver.rs; sampled K <= 40 quick / 120 thorough. No axioms.",
+        technique="Rocq proof (decode <-> injective, via Gaussian elimination correctness) + prefix-wise rank-oracle correspondence",
+        ref="DESIGN.md section 5, C02"),
+    "C01": dict(
+        text="C01u_object_sound / C01u_block_sound (unconditional, both modes, every K <= 56403): for every valid configuration, all data and EVERY history of packets the model encoder produces (any order, multiplicity, subset, repair ESIs < 2^24) the model decoder never panics and answers None or exactly the object with length F; C01u_object_complete / C01u_all_source_complete: all source packets delivered => the object. Chain: the encoder's intermediate symbols solve the encoding system (reference elimination, proved correct), G_ENC rows are indicator rows of duplicate-free index lists so every received row is satisfied by the true C, uniqueness of the solution of an injective system forces the decoder's C, rebuilt symbols are Enc(C) = source symbols, un-interleaving by C05. Matrix facts discharged from the C04 development. Tie: whole encode -> erase/reorder/duplicate -> decode histories on the real code vs the model step by step (Z>1, N>1, padding, both profiles, dense/sparse thresholds) with the oracle 'None or exactly the object'.",
+        note="Trusted: Coq kernel; the real plan replay producing the model's intermediate symbols is certified per K' in C06 (in-kernel up to the stated bound) and tied by correspondence beyond; the real five-phase solver vs the reference elimination is tied by correspondence (C02). repair_packets with a start index beyond the 24-bit ESI space wraps in release builds (outside the property's quantifier; see DESIGN.md findings). No axioms.",
+        technique="Rocq proof (encode/decode soundness via uniqueness of the solution) + history correspondence",
+        ref="DESIGN.md section 5, C01"),
+    "C04": dict(
+        text="C04_matrix_is_rfc: for every one of the 477 rows of Table 2, every K selecting it, every ISI list (< 2^32) and both modes the constraint matrix the model builds (as the code does: set-based LDPC/ENC rows, right-to-left HDPC recursion) equals, as a list of rows, the RFC matrix of the Spec (parity of the RFC's additive relations, HDPC = MT x GAMMA naive product): C04_hdpc_recursion_is_product by induction with the field laws and i1 <> i2, C04_ldpc_rows_are_rfc and C04_enc_rows_are_rfc from distinctness of the indices (S, W, P1 prime; P >= 3 swept over the table), the no-HDPC variant likewise. With C01u_source_is_enc / C18_enc_into_is_enc_indices the packets are Enc[K', C, Tuple[K', X+K'-K]] of THE solution C. Tie: real packets (source, first repair, windows over the whole 24-bit ESI range) vs the Spec oracle, which shares nothing with the crate's computation; multi-block objects vs the model.",
+        note="Trusted: Coq kernel; Spec/Code.v, Spec/Tuple.v, Spec/Rand.v hand-transcribed from RFC 6330; unstructured tables are a snapshot; that A(K') is invertible is proved per K' by the C06 certificates (in-kernel bound stated there) and is the RFC's own claim beyond. No axioms.",
+        technique="Rocq proof (model matrix = RFC matrix for all K') + Spec-oracle correspondence of packets",
+        ref="DESIGN.md section 5, C04"),
+    "C06": dict(
+        text="PARTIAL beyond the in-kernel bound. For every K' up to the bound (quick: 74 rows K' <= 500; thorough: 201 rows K' <= 3000) the operation list of SourceBlockEncodingPlan::generate(K') is dumped from the CURRENT tree on every run and `cert_ok K' plan = true` is checked by the kernel's VM in a generated file; C06_for_block_size turns it into: for every K mapping to K', all data, all T, both modes the replayed symbols satisfy every LDPC/HDPC relation and reproduce every source and padding symbol, are the unique solution, equal the direct solve, the encoder builds, A(K') is invertible. Direct solves on the sparse and dense back-ends are certified for a subset. Beyond the bound: the extracted checker (validation) and the hook-based constraint check of the real intermediate symbols.",
+        note="Trusted: Coq kernel (vm_cast_no_check: evaluated by the kernel VM at Qed); the generated files contain only the dumped literal; K' above the bound (276 rows in thorough) are NOT proved, only validated; the sparse/dense row representations are abstracted (C16). No axioms.",
+        technique="Rocq proof by per-K' certificate checking in the kernel (plans regenerated from source every run) + hook-based constraint check",
+        ref="DESIGN.md section 5, C06"),
+    "C16": dict(
+        text="DENSE half proved, SPARSE half by correspondence only (partial). Dense: Model/DenseMatrix.v mirrors matrix.rs word for word (bit positions, masks, popcount, iterator stepping, right-aligned packing, resize compaction); refinement to the abstract bit array of Spec/BitMatrix.v for every operation and query (C16_dense_*_refines, equality of ALL cells), lifted to every admissible operation sequence (C16_dense_sequence, C16_dense_run); the pre-fix defects are refuted by witnesses and repaired (570911f, bcbc9b5). Sparse: the real SparseBinaryMatrix is run on phase-structured admissible sequences (construction / indexed incl. freezes across word boundaries and single-entry eliminations / un-indexed incl. partial row additions and resizes) and compared with the Spec; two sparse defects found this way are repaired (b932d23 and the empty-index build).",
+        note="Trusted: Coq kernel; Spec/BitMatrix.v as the interface meaning. The sparse matrix has no proved model yet (in progress): its half of the property is decided by sampled correspondence only. Width-0 resize is outside the domain. No axioms.",
+        technique="Rocq refinement proof (dense) + op-sequence correspondence against the abstract matrix (dense and sparse)",
+        ref="DESIGN.md section 5, C16"),
+    "C18": dict(
+        text="C18_window_is_singles (both modes, unconditional), C18_singles_make_window, C18_overlap_agree, C18_ids / C18_ids_mod (ESI = K+s+i, distinct, disjoint from source ids), C18_object_order (block by block: source 0..K-1 then repair K..), C18_all_ids_producible (every id below 2^24 is produced without panic, via the C15 tuple facts), C18_symbol_depends_only_on (payload is a function of K, the intermediate symbols and the ESI), C18_enc_into_is_enc_indices. Tie: on the real encoder windows vs singles vs overlapping windows, ids, object order, the three constructors (cache / explicit plan / regenerated plan) produce equal encoders, top-of-range windows and the 2^24 limit, all also vs the model in both profiles.",
+        note="Trusted: Coq kernel; determinism of plan generation on the real code is a correspondence fact. Windows reaching beyond the 24-bit ESI space are outside the property (in release builds a start index near 2^32 wraps: see DESIGN.md findings). No axioms.",
+        technique="Rocq proof over the encoder model + window/constructor correspondence",
+        ref="DESIGN.md section 5, C18"),
 }
 
 NOT_APPLICABLE = {
